@@ -367,6 +367,7 @@ fn short_op(op: &Op) -> String {
         Op::CloseFd { fd } => format!("close {}", fd),
         Op::Bg { hold, life_ns, .. } => format!("bg hold={} {}", hold, crate::runcli::dur(*life_ns)),
         Op::Touch { rel } => format!("touch {}", rel),
+        Op::CloseStdin => "close stdin".into(),
     }
 }
 
